@@ -56,7 +56,7 @@ pub(super) fn finalize_typed_function(
     }
 
     if parent.scope_depth == 0 {
-        let idx = parent.get_or_create_global_index(&func.name);
+        let idx = parent.get_or_create_global_index(&func.name)?;
         parent.accessed_globals.insert(func.name.clone());
         parent.emit_b(OpCode::SetGlobalIdx, func_var_reg, idx as i16, func.span);
     }
